@@ -561,7 +561,13 @@ class Parser:
             )
 
         if path_tok := (path_tok or self._path_token):
-            node = xonsh_call("__xonsh__.path_literal", node, **path_tok.loc())
+            locs = {
+                "lineno": node.lineno,
+                "col_offset": node.col_offset,
+                "end_lineno": node.end_lineno,
+                "end_col_offset": node.end_col_offset,
+            }
+            node = xonsh_call("__xonsh__.path_literal", node, **locs)  # type: ignore[arg-type]
             self._path_token = None
         return node
 
